@@ -28,11 +28,28 @@ import c19_ddl as D
 
 REPO = os.environ.get("VERIF_REPO", "/repo")
 SCRATCH = os.environ["VERIF_SCRATCH"]
-ARTIFACT = os.path.join(REPO, "test_autofit", "database", "migration", "database.sqlite")
+CORPUS = os.path.join(os.environ.get("VERIF_DIR", "/verif"), "corpus", "C19")
+# PINNED history (committed, never regenerated): released step texts / ids, the schema before the first step
+# with its DDL, and a copy of the repository's historical test database
+PIN = json.load(open(os.path.join(CORPUS, "pinned_history.json")))
+ARTIFACT = os.path.join(CORPUS, "historical_database.sqlite")
 
 RUNTIME_STEPS = [list(s.strings) for s in migrator._steps]
 PARSED = None          # set in main (fail closed -> reported)
 STMT_INDEX = {}        # statement text -> (step index, statement index)
+
+def released_steps(k):
+    """Statements that produced schema revision k: the texts as RELEASED (pinned) as far as they go, the
+    current ones for steps appended since."""
+    pin = PIN["steps"]
+    return [list(s) for s in pin[:k]] + [list(s) for s in RUNTIME_STEPS[len(pin):k]]
+
+
+def released_revision_id(j):
+    """Stamp a released version wrote at revision j (pinned; computed only for steps appended since)."""
+    ids = PIN["revision_ids"]
+    return ids[j - 1] if 1 <= j <= len(ids) else D.revision_id(released_steps(j))
+
 
 # --------------------------------------------------------------------------------------------
 # statement trace (class-level engine events: open_database creates its own engine)
@@ -108,12 +125,13 @@ def _observe(execute):
     nfit = None
     if any(t == "fit" for t, _ in schema):
         nfit = [r[0] for r in execute("SELECT count(*) FROM fit")][0]
-    return {"schema": schema, "rev": rev, "nfit": nfit}
+    rows = {t: [r[0] for r in execute('SELECT count(*) FROM "%s"' % t)][0] for t, _ in schema}
+    return {"schema": schema, "rev": rev, "nfit": nfit, "rows": rows}
 
 
 def observe_file(path):
     if not os.path.exists(path):
-        return {"schema": [], "rev": "nofile", "nfit": None}
+        return {"schema": [], "rev": "nofile", "nfit": None, "rows": {}}
     con = sqlite3.connect(path)
     try:
         return _observe(lambda q: con.execute(q).fetchall())
@@ -219,10 +237,10 @@ def build_file(path, base, k, rev, nfits):
                 for (t,) in con.execute("SELECT name FROM sqlite_master WHERE type='table'")}
     else:
         con = sqlite3.connect(path)
-        for ddl in derived_base_tables():
+        for ddl in PIN["base_ddl"]:
             con.execute(ddl)
         have = None
-    for i, step in enumerate(RUNTIME_STEPS[:k]):
+    for i, step in enumerate(released_steps(k)):
         for j, stmt in enumerate(step):
             try:
                 con.execute(stmt)
@@ -258,7 +276,7 @@ def build_file(path, base, k, rev, nfits):
             con.execute("INSERT INTO revision (revision_id) VALUES (null)")
         elif rev.startswith("stamp:"):
             j = int(rev.split(":")[1])
-            con.execute("INSERT INTO revision (revision_id) VALUES (?)", (D.revision_id(RUNTIME_STEPS[:j]),))
+            con.execute("INSERT INTO revision (revision_id) VALUES (?)", (released_revision_id(j),))
         elif rev.startswith("unknown:"):
             con.execute("INSERT INTO revision (revision_id) VALUES (?)", (rev.split(":", 1)[1],))
         elif rev != "empty":
@@ -272,6 +290,11 @@ def build_file(path, base, k, rev, nfits):
 # --------------------------------------------------------------------------------------------
 
 def open_via(via, path):
+    if not path.endswith(".sqlite"):
+        # a case of the URL branch of open_database (names that do not end in ".sqlite"): every session of
+        # such a case has to name the file by its URL
+        assert path.startswith("/")
+        path = "sqlite:///" + path
     if via == "aggregator":
         agg = af.Aggregator.from_database(path)
         return agg.session
@@ -414,21 +437,25 @@ def exercise_features(path, nfits):
                     end_session(session)
                 except Exception:
                     pass
+    res["old_fits"] = read_old_fits(path)
+    return res
+
+
+def read_old_fits(path, via="aggregator"):
+    """Fits stored before the migration, read back through the ORM."""
     session = None
     try:
-        agg = af.Aggregator.from_database(path)
-        session = agg.session
-        got = sorted((read_fit(f) for f in agg.fits if f.id.startswith("old_fit_")), key=lambda d: d["id"])
-        res["old_fits"] = got
+        session = open_via(via, path)
+        fits = af.Aggregator(session).fits
+        return sorted((read_fit(f) for f in fits if f.id.startswith("old_fit_")), key=lambda d: d["id"])
     except Exception as e:
-        res["old_fits"] = short_exc(e)
+        return short_exc(e)
     finally:
         if session is not None:
             try:
                 end_session(session)
             except Exception:
                 pass
-    return res
 
 
 _counter = [0]
@@ -482,6 +509,8 @@ def run_toy(c, idx):
             for op in s["ops"]:
                 if op == "commit":
                     session.commit()
+                elif op == "rollback":
+                    session.rollback()
                 else:
                     _counter[0] += 1
                     session.execute(text("INSERT INTO fit (id) VALUES (:i)"), {"i": "w%d" % _counter[0]})
@@ -511,9 +540,10 @@ def run_case(c, idx):
     if kind == "ids":
         return {"step_ids": [s.id for s in migrator._steps], "revision_ids": [r.id for r in migrator.revisions],
                 "latest": migrator.latest_revision.id}
-    path = os.path.join(SCRATCH, "case_%d.sqlite" % idx)
+    uses_url = any(s_["via"] == "url" for s_ in c["sessions"])
+    path = os.path.join(SCRATCH, "case_%d.%s" % (idx, "db" if uses_url else "sqlite"))
     name = path
-    if c.get("relpath"):
+    if c.get("relpath") and not uses_url:
         # a name relative to the configured output path (open_database prefixes conf.instance.output_path)
         name = "c19_rel_%d/nested/case.sqlite" % idx
         path = os.path.join(str(conf.instance.output_path), name)
@@ -521,7 +551,9 @@ def run_case(c, idx):
             os.makedirs(os.path.dirname(path), exist_ok=True)
     if os.path.exists(path):
         os.remove(path)
-    if c["start"] != "fresh":
+    if c["start"] == "emptyfile":
+        open(path, "wb").close()          # an existing zero-byte file: a valid, empty SQLite database
+    elif c["start"] != "fresh":
         build_file(path, c["base"], c["k"], c["rev"], c["nfits"])
     out = {"initial": observe_file(path), "sessions": []}
     for s in c["sessions"]:
@@ -531,6 +563,8 @@ def run_case(c, idx):
         for op in s["ops"]:
             if op == "commit":
                 session.commit()
+            elif op == "rollback":
+                session.rollback()
             elif op == "write":
                 _counter[0] += 1
                 session.execute(text("INSERT INTO fit (id) VALUES (:i)"), {"i": "w%d" % _counter[0]})
@@ -540,7 +574,13 @@ def run_case(c, idx):
         end_session(session)
         rec["after_close"] = observe_file(path)
         out["sessions"].append(rec)
-    if c.get("features", True):
+    last_via = "url" if uses_url else "aggregator"
+    if c["nfits"] and c["start"] == "file" and not c.get("features", True):
+        # existing fits must stay readable after every history (one more open, after the modelled sessions)
+        out["old_fits"] = read_old_fits(name, last_via)
+    if uses_url and c.get("features", True):
+        out["old_fits"] = read_old_fits(name, last_via)
+    elif c.get("features", True):
         # pre-existing rows written through raw INSERTs (ids w*) are not ORM fits with models; they stay readable as rows
         out["features"] = exercise_features(name, c["nfits"])
         out["final"] = observe_file(path)
@@ -559,6 +599,7 @@ def meta():
         "revision_ids": [r.id for r in migrator.revisions],
         "latest": migrator.latest_revision.id,
         "artifact": art,
+        "pinned_ok": {"steps_prefix": RUNTIME_STEPS[:len(PIN["steps"])] == PIN["steps"]},
     }
 
 
@@ -582,7 +623,18 @@ def main():
         res["meta"] = meta()
     else:
         res["meta"] = meta()
-        res["expected_old"] = {str(n): expected_old_fits(n) for n in (0, 1, 2)}
+        # differential references, read through the same ORM from databases written by create_all (decouples the
+        # oracle from unrelated code: Samples.minimise, astropy, ...)
+        res["expected_old"] = {"0": []}
+        for n_ in sorted(set(c.get("nfits", 0) for c in payload["cases"] if c.get("kind", "history") == "history") - {0}):
+            res["expected_old"][str(n_)] = read_old_fits(full_db(n_))
+        if any(c.get("kind", "history") == "history" and c.get("features", True) for c in payload["cases"]):
+            fp = os.path.join(SCRATCH, "baseline.sqlite")
+            s0 = db.open_database(fp)
+            end_session(s0)
+            base = exercise_features(fp, 0)
+            res["features_baseline"] = {"write": base["write"], "read": base["read"]}
+            os.remove(fp)
         results = []
         for idx, c in enumerate(payload["cases"]):
             try:
